@@ -166,7 +166,10 @@ def rand_spec(rng, opts=None):
     for _ in range(opts.get("n_mconflict", 1)):
         if rng.random() < opts.get("p_mconflict", 0.3) and len(methods) >= 2:
             a, b = rng.sample(range(len(methods)), 2)
-            rels.append(["conflict", ["m", a], ["m", b], rng.choice(["U", "L", "R"]) if opts.get("mprio") else "U"])
+            rel = ["conflict", ["m", a], ["m", b], rng.choice(["U", "L", "R"]) if opts.get("mprio") else "U"]
+            if opts.get("alias") and rng.random() < 0.3:
+                rel.append([rng.choice([0, 1, 2]), rng.choice([0, 1])])  # declared on provide() aliases of the two methods
+            rels.append(rel)
     if rng.random() < opts.get("p_tm_conflict", 0.0) and methods:
         rels.append(["conflict", ["t", rng.randrange(ntr)], ["m", rng.randrange(len(methods))], rng.choice(["U", "L", "R"])])
     if rng.random() < opts.get("p_before", 0.3) and ntr >= 2:
@@ -241,7 +244,8 @@ def systematic_relation_specs():
         two separate module-level If / Switch / FSM structures, in two TModules or in one (not mutually exclusive: both may run);
     (2) a prioritised method-method conflict lifted to several caller pairs one of which is mutually exclusive by control path
         and is visited first, with extra conflicts that turn the default tie-break against the high-priority transaction;
-    (3) bodies with two ready-dependency sources (nesting + explicit schedule_before(ready_dependent=True), two explicit ones)."""
+    (3) bodies with two ready-dependency sources (nesting + explicit schedule_before(ready_dependent=True), two explicit ones);
+    (4) conflicts declared on provide() aliases of the conflicting methods."""
     def meth(name, body=(), nonex=False):
         return dict(name=name, nonexcl=nonex, iw=0, ow=0, ready_free=True, validate=None, combiner=None, body=list(body),
                     single_caller=False, nested_in=None)
@@ -272,6 +276,25 @@ def systematic_relation_specs():
                 trs, groups = [tL2, tL1, tH, tS1, tS2], [["plain", [0]], ["if", [[1], [2]], True], ["plain", [3]], ["plain", [4]]]
             r = ["conflict", ["m", 0], ["m", 1], "L"] if form == "L" else ["conflict", ["m", 1], ["m", 0], "R"]
             out.append(dict(methods=methods, transactions=trs, relations=[r], groups=groups, group_module=[0] * len(groups), mgroups=[], witness=False))
+    # (4) an add_conflict declared on provide() aliases of the methods (the callers use the method itself or an alias)
+    for ha, hb in ((1, 0), (0, 1), (2, 1)):
+        for prio in ("U", "L", "R"):
+            for call_hops in (0, 1):
+                methods = [meth("M0"), meth("M1")]
+                trs = [tr("T0", [["call", 0, False, call_hops]]), tr("T1", [["call", 1, False, 0]])]
+                out.append(dict(methods=methods, transactions=trs, relations=[["conflict", ["m", 0], ["m", 1], prio, [ha, hb]]],
+                                groups=[["plain", [0]], ["plain", [1]]], group_module=[0, 0], mgroups=[], witness=False))
+    # (5) W.add_conflict(R) / R.add_conflict(W), R nonexclusive: T0 calls W in one branch and R in the other, T1 calls R only
+    for order in ("WR", "RW"):
+        for prio in ("U", "L", "R"):
+            for first in (0, 1):
+                methods = [meth("W"), meth("R", nonex=True)]
+                t_both = tr("Tboth", [["if", [[["call", 0, False, 0]], [["call", 1, False, 0]]], True]])
+                t_r = tr("Tr", [["call", 1, False, 0]])
+                trs = [t_both, t_r] if first == 0 else [t_r, t_both]
+                r = ["conflict", ["m", 0], ["m", 1], prio] if order == "WR" else ["conflict", ["m", 1], ["m", 0], prio]
+                out.append(dict(methods=methods, transactions=trs, relations=[r], groups=[["plain", [0]], ["plain", [1]]],
+                                group_module=[0, 0], mgroups=[], witness=False))
     # (3) two ready-dependency sources
     for variant in ("nest+explicit", "two explicit", "nest+explicit, source later"):
         methods = [meth("M0")]
@@ -397,7 +420,7 @@ class Design(Elaboratable):
                 self.sites.append(Site(bkey, mi, tpath + [(next(self.nid), 0)], list(lits), en, arg, res, k))
             elif kind == "sif":
                 node = next(self.nid)
-                c = self.inp(f"c{node}_s")
+                c = self.inp(f"c{node}_s", 2 if node % 3 == 1 else 1)  # some conditions are 2 bits wide (true iff non-zero)
                 with m.If(c):
                     self.emit_body(m, bkey, st[1], tpath + [(node, 0)], lits + [("p", c)], bodies)
             elif kind == "if":
@@ -407,7 +430,7 @@ class Design(Elaboratable):
                 for j, b in enumerate(alts):
                     is_else = has_else and j == len(alts) - 1
                     if not is_else:
-                        c = self.inp(f"c{node}_{j}")
+                        c = self.inp(f"c{node}_{j}", 2 if (node + j) % 3 == 1 else 1)  # some conditions are 2 bits wide
                     ctx = m.If(c) if j == 0 else (m.Else() if is_else else m.Elif(c))
                     lit = [("n", x) for x in conds] + ([] if is_else else [("p", c)])
                     with ctx:
@@ -614,20 +637,22 @@ class Design(Elaboratable):
 
                 self._emit_fsm(m, gnode, len(alts), emit_alt)
 
-        def obj(k):
+        def obj(k, hops=0):
             k = tuple(k)
             if k[0] == "t":
                 return self.T[k[1]]
             if k[0] == "n":
                 return self.NT[k][0]
-            return self.M[k[1]]
+            # a relation may be declared on a provide() alias of the method (optional 5th element [hops, hops]): same body
+            return self._alias_of(k[1], hops) if hops else self.M[k[1]]
 
         for r in sp["relations"]:
+            ha, hb = r[4] if len(r) > 4 else (0, 0)
             if r[0] == "conflict":
                 pr = {"U": Priority.UNDEFINED, "L": Priority.LEFT, "R": Priority.RIGHT}[r[3]]
-                obj(r[1]).add_conflict(obj(r[2]), pr)
+                obj(r[1], ha).add_conflict(obj(r[2], hb), pr)
             else:
-                obj(r[1]).schedule_before(obj(r[2]), ready_dependent=bool(r[3]))
+                obj(r[1], ha).schedule_before(obj(r[2], hb), ready_dependent=bool(r[3]))
         return top
 
 
